@@ -54,6 +54,28 @@ def gen_store(ctx: Ctx) -> tuple[list[dict[str, Any]], list[tuple[str, str]]]:
     return events, traces
 
 
+def gen_large_store(ctx: Ctx) -> tuple[list[dict[str, Any]], list[tuple[str, str]]]:
+    """scale: 2-4 workflow names in no particular order with 60-140 traces each (several hundred trace ids, more than
+    fit into a few pages or a few hundred bound parameters)"""
+    r = ctx.rng
+    names = r.sample(["beta", "gamma", "alpha", "Alpha", "delta 2", "a"], k=r.choice([2, 3, 4]))
+    events: list[dict[str, Any]] = []
+    traces: list[tuple[str, str]] = []
+    k = 0
+    for name in names:
+        for j in range(r.choice([60, 100, 120, 140])):
+            jid = f"{name}-{j}"
+            traces.append((name, jid))
+            n = r.choice([1, 1, 2])
+            for i in range(n):
+                events.append(sl.ev(name, jid, r.choice("ABC"), f"s{k}", 100 + k, 200 + k, None if i == 0 else f"s{k - 1}",
+                                    app="app"))
+                k += 1
+    r.shuffle(events)
+    ctx.tick("store_large")
+    return events, traces
+
+
 def gen_filter(ctx: Ctx, traces: list[tuple[str, str]]) -> dict[str, list[str]] | None:
     r = ctx.rng
     kind = r.choice(["none", "none", "empty", "subset", "subset", "one_name", "absent", "all", "no_ids", "some_no_ids"])
@@ -119,7 +141,8 @@ def run(ctx: Ctx) -> None:
     ctx.cov["rule"] = (
         "seeded stores: 1-4 workflow names (case, space, non-ASCII, prefix-of-each-other variants), 1-4 traces per name of "
         "1-5 spans, trace ids optionally shared between names, ingestion order shuffled; batch sizes {1,2,3,1000}; "
-        "filters {none, empty map, subset of (name, id) pairs, one name, absent name/id, all, names with no ids}. non-trivial: >= 2 names "
+        "filters {none, empty map, subset of (name, id) pairs, one name, absent name/id, all, names with no ids}; large stores (2-4 names x "
+        "60-140 traces, filters of several hundred ids with the names in no particular order, batch 50 / 1000). non-trivial: >= 2 names "
         "or >= 3 traces and a filter that selects some but not all traces, or interleaved ingestion"
     )
     cases = []
@@ -130,6 +153,19 @@ def run(ctx: Ctx) -> None:
         ctx.tick(f"batch{batch}")
         cases.append({"batch": batch, "buffer": 0, "events": events, "filter": filt, "traces": traces,
                       "script": [["ingest", events], ["stream", filt]]})
+    for _ in range(6 if ctx.tier == "quick" else 40):
+        events, traces = gen_large_store(ctx)
+        kind = ctx.rng.choice(["all", "all", "most", "none"])
+        filt2: dict[str, list[str]] | None = None
+        if kind != "none":
+            filt2 = {}
+            for n, j in traces:      # names in the order the store was built: not sorted
+                if kind == "all" or ctx.rng.random() < 0.8:
+                    filt2.setdefault(n, []).append(j)
+        batch = ctx.rng.choice([50, 1000])
+        ctx.tick("filter_large_" + kind)
+        cases.append({"batch": batch, "buffer": 0, "events": events, "filter": filt2, "traces": traces,
+                      "script": [["ingest", events], ["stream", filt2]]})
     try:
         model = sl.run_model(cases)
     except Exception as ex:  # noqa: BLE001
